@@ -40,7 +40,7 @@ def cases(tier, seed):
     out = []
     for kind in ("isv", "jfa"):
         for u in range(len(UBMS)):
-            for sub in (range(4) if tier == "quick" else range(12)):
+            for sub in (range(5) if tier == "quick" else range(12)):
                 for fac in (range(3) if tier == "quick" else range(6)):
                     for pr in range(4):
                         out.append(dict(kind=kind, ubm=u, sub=sub, fac=fac, probe=pr, seed=seed))
@@ -67,6 +67,8 @@ def _machine(case, ubm, s):
     C, D = ubm.means.shape
     sub = case["sub"]
     rU = 1 + sub % 2 + (1 if sub >= 8 else 0)
+    if sub == 4:
+        rU = C * D + 1  # more channel factors than supervector entries
     rV = 1 + (sub // 2) % 2
     if case["kind"] == "isv":
         m = ISVMachine(r_U=rU, ubm=ubm, em_iterations=1, enroll_iterations=2)
